@@ -8,14 +8,17 @@ EXPLANATION = (
     "Decided structurally: (ASSERT) in every World method that takes a ResourceId and a Resource type parameter, "
     "id.assert_same_type_id::<T>() dominates every access to the table, and that function returns iff the type ids of "
     "ResourceId::new::<R>() and self are equal; (INSERT) every insertion into the table stores Box::<R>::new under the asserted id or "
-    "ResourceId::new::<R>() of the same R (insert_by_id, World::entry/Entry::or_insert_with); (GUARD) Fetch/FetchMut are constructed "
-    "only in the audited typed lookups; (DOWNCAST) every unchecked downcast is applied to a guard's own content or behind is::<T>(); "
+    "ResourceId::new::<R>() of the same R; every Entry<X> that is built wraps resources.entry(ResourceId::new::<X>()) and its vacant "
+    "slot receives a Box::<X>; (GUARD) every Fetch<X> / FetchMut<X> that is built wraps a cell that is visibly the slot of X (found "
+    "under ResourceId::new::<X>() or an id asserted for X, the slot of an Entry<X>, the cell of another guard of X), private "
+    "constructors being decided in each of their callers; (DOWNCAST) every unchecked downcast to X is applied to the content of a "
+    "guard of X, to what the table holds under ResourceId::new::<X>(), or behind is::<X>(); "
     "(KEY) wrappers use the id of their own type, raw operations use their id parameter, ResourceId constructors wire both fields and "
     "Eq/Hash are compiler-derived over both; (ONCE) the only Box::from_raw is fed by Box::into_raw of the same box. HashMap's own "
     "semantics are delegated to std.")
 ASSUMPTIONS = ["std HashMap: insert replaces, remove returns the stored value, entry never overwrites an occupied slot", "TypeId uniquely names a type"]
 TRUSTED = ["rustc nightly MIR construction", "shred-facts driver", "shredlint analyses"]
-TECHNIQUE = 'static: dominance of assert_same_type_id over table access, decision table of the assertion, key/value terms of every table insertion, guard-construction and unchecked-downcast site inventory, constructor wiring, derived Eq/Hash check, compile_fail witness'
+TECHNIQUE = 'static: dominance of assert_same_type_id over table access, decision table of the assertion, key/value terms of every table insertion, provenance of the cell behind every guard / entry construction and of the value behind every unchecked downcast (structured evaluation, helpers decided in their callers), constructor wiring, derived Eq/Hash check, compile_fail witness'
 RULE_TEXT = "one obligation per id-taking method, insertion site, guard construction site, unchecked downcast site, key wiring site"
 
 
